@@ -170,7 +170,7 @@ func putUvarint(dst []byte, v uint64) []byte {
 	return append(dst, tmp[:n]...)
 }
 
-func encodeBlockRaw(dst []byte, raw []byte, typ byte, declared uint64) []byte {
+func encodeBlockRaw(dst []byte, raw []byte, typ byte, declared uint64, sizeOverride ...uint64) []byte {
 	if len(raw) == 0 && declared == 0 && typ == 0xff {
 		return putUvarint(dst, 0)
 	}
@@ -189,7 +189,11 @@ func encodeBlockRaw(dst []byte, raw []byte, typ byte, declared uint64) []byte {
 	default:
 		payload = raw
 	}
-	dst = putUvarint(dst, uint64(len(payload)+1))
+	sz := uint64(len(payload) + 1)
+	if len(sizeOverride) > 0 && sizeOverride[0] != 0 {
+		sz = sizeOverride[0]
+	}
+	dst = putUvarint(dst, sz)
 	dst = append(dst, typ)
 	return append(dst, payload...)
 }
@@ -201,6 +205,9 @@ type rawBlob struct {
 	msg, tags, vals            []byte
 	msgSize, tagsSize, valSize uint64 // declared
 	msgTyp, tagsTyp, valsTyp   byte
+	// declared (compressed) block sizes, when non-zero, replace the real ones: [message, tags, values]
+	blockSize [3]uint64
+	compSize  uint64 // declared size of the whole remainder, when non-zero
 }
 
 func decodeBlob(b []byte) (*rawBlob, error) {
@@ -231,13 +238,17 @@ func (rb *rawBlob) encode() []byte {
 	body = putUvarint(body, rb.stringsSize)
 	body = putUvarint(body, 0) // strings block: empty
 	body = putUvarint(body, rb.msgSize)
-	body = encodeBlockRaw(body, rb.msg, rb.msgTyp, rb.msgSize)
+	body = encodeBlockRaw(body, rb.msg, rb.msgTyp, rb.msgSize, rb.blockSize[0])
 	body = putUvarint(body, rb.tagsSize)
-	body = encodeBlockRaw(body, rb.tags, rb.tagsTyp, rb.tagsSize)
+	body = encodeBlockRaw(body, rb.tags, rb.tagsTyp, rb.tagsSize, rb.blockSize[1])
 	body = putUvarint(body, rb.valSize)
-	body = encodeBlockRaw(body, rb.vals, rb.valsTyp, rb.valSize)
+	body = encodeBlockRaw(body, rb.vals, rb.valsTyp, rb.valSize, rb.blockSize[2])
 	out := []byte{rb.version}
-	out = putUvarint(out, uint64(len(body)))
+	cs := uint64(len(body))
+	if rb.compSize != 0 {
+		cs = rb.compSize
+	}
+	out = putUvarint(out, cs)
 	return append(out, body...)
 }
 
@@ -407,7 +418,7 @@ func mutateBlob(t *rapid.T, blob []byte) ([]byte, string) {
 		kind := "structure"
 		n := rapid.IntRange(1, 3).Draw(t, "nsm")
 		for i := 0; i < n; i++ {
-			switch rapid.IntRange(0, 13).Draw(t, "sm") {
+			switch rapid.IntRange(0, 14).Draw(t, "sm") {
 			case 0, 1, 2: // change a tag
 				if len(rb.tags) > 0 {
 					p := rapid.IntRange(0, len(rb.tags)-1).Draw(t, "tp")
@@ -512,6 +523,19 @@ func mutateBlob(t *rapid.T, blob []byte) ([]byte, string) {
 					}
 					kind = "structure-coordinated"
 				}
+			case 11: // declared block sizes: huge varints and off-by-a-few values
+				huge := []uint64{^uint64(0), 1<<63 + 1, 1 << 63, 1<<63 - 1, 1 << 62, 1 << 32, 1<<31 + 1}
+				v := huge[rapid.IntRange(0, len(huge)-1).Draw(t, "huge")]
+				if rapid.IntRange(0, 2).Draw(t, "near") == 0 {
+					v = uint64(len(rb.tags) + rapid.IntRange(0, 6).Draw(t, "nearv"))
+				}
+				switch rapid.IntRange(0, 3).Draw(t, "whichsize") {
+				case 3:
+					rb.compSize = v
+				default:
+					rb.blockSize[rapid.IntRange(0, 2).Draw(t, "whichblock")] = v
+				}
+				kind = "structure-block-size"
 			case 10: // a flagged-float entry ('e') stores its tape word verbatim: give that word another tag byte
 				vi := 0
 				type ev struct{ ti, vi int }
